@@ -87,6 +87,174 @@ fn call_once(pkg: &mut Package<roto::NoCtx>, ret: T, a: Args) -> Result<String, 
     })
 }
 
+/// every third generated program stays inside the fragment of the structured lowering model
+fn is_frag(idx: u64) -> bool {
+    idx % 3 == 1
+}
+
+// ------------------------------------------------- IR-level tie: LowerS vs the real MIR
+
+#[derive(Clone, Debug, PartialEq)]
+enum Raw {
+    Assign(String),
+    Ret(String),
+    Jump(usize),
+    Switch(String, Vec<(usize, usize)>, Option<usize>),
+    Other(String),
+}
+
+/// The real MIR of `main` (post-DCE) as raw blocks; `drop`s and `x: () = ()` are left out.
+fn real_raw(src: &str) -> Result<(usize, Vec<Vec<Raw>>), String> {
+    use roto::verif_hooks::c08::Ins;
+    let rt: &'static roto::Runtime<roto::NoCtx> = Box::leak(Box::new(host::runtime()));
+    let fns = roto::verif_hooks::c08::dump(FileTree::test_file("c08.roto", src, 0), rt).map_err(|e| format!("{e}"))?;
+    let f = fns.iter().find(|f| f.name.ends_with("main")).ok_or("no main in the MIR dump")?;
+    let blocks = f
+        .blocks
+        .iter()
+        .map(|b| {
+            b.iter()
+                .filter_map(|i| match i {
+                    Ins::Assign { unit_const: true, .. } | Ins::Drop { .. } => None,
+                    Ins::Assign { to, value, .. } => Some(Raw::Assign(format!("{to} = {}", value.trim_end()))),
+                    Ins::SetDiscriminant { to, variant } => Some(Raw::Other(format!("setdisc {to} {variant}"))),
+                    Ins::Return { var } => Some(Raw::Ret(var.clone())),
+                    Ins::Jump { to } => Some(Raw::Jump(*to)),
+                    Ins::Switch { examinee, branches, default } => Some(Raw::Switch(examinee.clone(), branches.clone(), *default)),
+                })
+                .collect()
+        })
+        .collect();
+    Ok((f.tmp_idx, blocks))
+}
+
+/// The model's answer to `c08 mir`: `ok <tmp_idx> | block | block …`.
+fn model_raw(ans: &str) -> Result<(usize, Vec<Vec<Raw>>), String> {
+    let mut parts = ans.split(" | ");
+    let head = parts.next().unwrap_or("");
+    let tmp_idx: usize = head.strip_prefix("ok ").and_then(|s| s.trim().parse().ok()).ok_or(format!("bad head: {head}"))?;
+    let mut blocks = vec![];
+    for b in parts {
+        let mut ins = vec![];
+        for i in b.split(';').map(|s| s.trim()).filter(|s| !s.is_empty()) {
+            let w: Vec<&str> = i.split(' ').collect();
+            ins.push(match w[0] {
+                "a" => {
+                    let text = w[1..].join(" ");
+                    if text.ends_with("= const unit") {
+                        continue;
+                    }
+                    Raw::Assign(text.trim_end().to_string())
+                }
+                "r" => Raw::Ret(w[1].to_string()),
+                "j" => Raw::Jump(w[1].parse().map_err(|_| "jump")?),
+                "s" => Raw::Switch(w[1].to_string(), vec![(w[2].parse().map_err(|_| "switch")?, w[3].parse().map_err(|_| "switch")?)], Some(w[4].parse().map_err(|_| "switch")?)),
+                _ => return Err(format!("instruction not understood: {i}")),
+            });
+        }
+        blocks.push(ins);
+    }
+    Ok((tmp_idx, blocks))
+}
+
+/// Canonical text of a CFG: blocks in depth-first order from the entry (switch branches in
+/// order, then the default), renumbered by first visit; each block cut after its first
+/// terminator. Equal CFGs up to label names / block order / unreachable code give equal text.
+fn canon_cfg(blocks: &[Vec<Raw>]) -> String {
+    let mut order: Vec<usize> = vec![];
+    let mut id = std::collections::HashMap::new();
+    let mut stack = vec![0usize];
+    let cut = |b: &Vec<Raw>| -> Vec<Raw> {
+        let mut out = vec![];
+        for i in b {
+            out.push(i.clone());
+            if matches!(i, Raw::Ret(_) | Raw::Jump(_) | Raw::Switch(..)) {
+                break;
+            }
+        }
+        out
+    };
+    while let Some(b) = stack.pop() {
+        if b >= blocks.len() || id.contains_key(&b) {
+            continue;
+        }
+        id.insert(b, order.len());
+        order.push(b);
+        let body = cut(&blocks[b]);
+        let mut succ = vec![];
+        match body.last() {
+            Some(Raw::Jump(l)) => succ.push(*l),
+            Some(Raw::Switch(_, br, d)) => {
+                succ.extend(br.iter().map(|(_, l)| *l));
+                succ.extend(d.iter().copied());
+            }
+            _ => {}
+        }
+        for s in succ.into_iter().rev() {
+            stack.push(s);
+        }
+    }
+    let name = |l: &usize| id.get(l).map(|i| format!("L{i}")).unwrap_or_else(|| "L?".to_string());
+    let mut out = String::new();
+    for (n, b) in order.iter().enumerate() {
+        out.push_str(&format!("L{n}:\n"));
+        for i in cut(&blocks[*b]) {
+            let line = match i {
+                Raw::Assign(t) => t,
+                Raw::Other(t) => t,
+                Raw::Ret(v) => format!("return {v}"),
+                Raw::Jump(l) => format!("jump {}", name(&l)),
+                Raw::Switch(x, br, d) => format!(
+                    "switch {x} [{}] else {}",
+                    br.iter().map(|(k, l)| format!("{k} => {}", name(l))).collect::<Vec<_>>().join(", "),
+                    d.as_ref().map(&name).unwrap_or_else(|| "-".to_string())
+                ),
+            };
+            out.push_str("  ");
+            out.push_str(&line);
+            out.push('\n');
+        }
+    }
+    out
+}
+
+/// Compare the structured lowering model with the real MIR of `main`.
+/// Ok(true): compared and equal; Ok(false): outside the model's fragment.
+fn compare_mir(rep: &mut Report, drv: &mut Driver, src: &str, sx: &str, ident: &Value) -> bool {
+    let ans = drv.ask(&format!("c08 mir {}", hex(sx)));
+    if ans == "outside" {
+        rep.hist("mir-model-vs-real", "outside the modelled fragment");
+        return false;
+    }
+    let model = match model_raw(&ans) {
+        Ok(m) => m,
+        Err(e) => {
+            rep.mismatch("answer of `c08 mir` not understood", json!({"case": ident, "src": src, "error": e, "answer": ans}));
+            return false;
+        }
+    };
+    let real = match catch_unwind(AssertUnwindSafe(|| real_raw(src))) {
+        Ok(Ok(r)) => r,
+        Ok(Err(e)) => {
+            rep.mismatch("MIR dump hook failed on a generated program", json!({"case": ident, "src": src, "error": e}));
+            return false;
+        }
+        Err(_) => return false, // the compiler panicked: reported by the behavioural part
+    };
+    let (mc, rc) = (canon_cfg(&model.1), canon_cfg(&real.1));
+    if mc != rc || model.0 != real.0 {
+        rep.mismatch(
+            "the structured lowering model (Lean LowerS.lowerFn) and the real MIR of main differ (instructions, order, temporaries or control flow; drops and unit constants ignored)",
+            json!({"case": ident, "src": src, "model_tmp_idx": model.0, "real_tmp_idx": real.0, "model": mc, "real": rc}),
+        );
+        rep.hist("mir-model-vs-real", "DIFFERENT");
+    } else {
+        rep.hist("mir-model-vs-real", "same");
+        rep.hist("mir-blocks", bucket(mc.matches("\nL").count() as u64 + 1));
+    }
+    true
+}
+
 fn tuple(a: &Args) -> String {
     format!("{},{},{}", a.0, a.1, a.2 as u8)
 }
@@ -283,6 +451,7 @@ fn check_program(rep: &mut Report, drv: &mut Driver, prog: &Prog, args: &[Args],
         }
         Ok(None) => {
             rep.hist("real-vs-spec", "agree");
+            compare_mir(rep, drv, &src, &sx, &ident);
             let nonempty = spec.iter().any(|s| s.starts_with("ok") && !events(s).is_empty());
             if nonempty {
                 rep.class(format!("prog:{:016x}", fnv(&src)));
@@ -488,7 +657,7 @@ fn main() {
                 crashes += 1;
                 let idx = out.lines().rev().find_map(|l| l.strip_prefix("START ")).and_then(|s| s.trim().parse::<u64>().ok()).unwrap_or(from);
                 let mut p = Prng::for_case(seed, idx);
-                let g = generator::gen_program(&mut p);
+                let g = generator::gen_program(&mut p, is_frag(idx));
                 rep.violation(
                     "process died or hung (trap/abort/timeout) while compiling or running a generated program",
                     "crash",
@@ -536,7 +705,7 @@ fn main() {
                         println!("START {idx}");
                         std::io::stdout().flush().ok();
                         let mut p = Prng::for_case(seed, idx);
-                        let g = generator::gen_program(&mut p);
+                        let g = generator::gen_program(&mut p, is_frag(idx));
                         let a = generator::gen_args(&mut p, 8);
                         let before = rep.impl_violations.len() + rep.model_mismatches.len();
                         check_program(&mut rep, &mut drv, &g.prog, &a, json!({"seed": seed, "index": idx}), idx % 61 == 0);
@@ -554,7 +723,7 @@ fn main() {
                     let seed: u64 = args[3].parse().unwrap();
                     let idx: u64 = args[4].parse().unwrap();
                     let mut p = Prng::for_case(seed, idx);
-                    let g = generator::gen_program(&mut p);
+                    let g = generator::gen_program(&mut p, is_frag(idx));
                     let a = generator::gen_args(&mut p, 8);
                     println!("{}", source(&g.prog));
                     std::io::stdout().flush().ok();
@@ -592,9 +761,18 @@ fn main() {
             let seed: u64 = args[2].parse().unwrap();
             let idx: u64 = args[3].parse().unwrap();
             let mut p = Prng::for_case(seed, idx);
-            let g = generator::gen_program(&mut p);
+            let g = generator::gen_program(&mut p, is_frag(idx));
             let a = generator::gen_args(&mut p, 8);
             println!("{}\n{}\nargs = {:?}", source(&g.prog), sexp(&g.prog), a);
+            return;
+        }
+        Some("mir") => {
+            let src = if args[2] == "-" { let mut s = String::new(); std::io::Read::read_to_string(&mut std::io::stdin(), &mut s).unwrap(); s } else { args[2].clone() };
+            let rt: &'static roto::Runtime<roto::NoCtx> = Box::leak(Box::new(host::runtime()));
+            match roto::verif_hooks::core::lower_to_mir(FileTree::test_file("c08.roto", &src, 0), rt) {
+                Ok(m) => println!("{}", m.text()),
+                Err(e) => println!("ERROR\n{e}"),
+            }
             return;
         }
         Some("exec") => {
